@@ -429,6 +429,8 @@ class Interface( NamedObject, Connectable ):
         for name, obj in s.__dict__.items():
           if name[0] != '_': # filter private variables
             if isinstance( obj, Signal ):
+              # Replace the port by its inverse: the field is assigned anew
+              s._dsl.NamedObject_fields.discard( name )
               setattr( s, name, obj.inverse() )
             else:
               setattr( s, name, obj )
